@@ -21,6 +21,7 @@ TE2E == /\ IsEvent("E2E")
 TEsc == IsEvent("Esc") /\ E.out = Esc(E.in)
 TUnesc == IsEvent("Unesc") /\ E.out = Unesc(E.in)
 TStrip == IsEvent("Strip") /\ E.out = Strip(E.in) /\ E.twice = E.out
+TColour == IsEvent("Colour") /\ E.out = Colourify(E.name, E.in) /\ E.stripped = Strip(E.in)
 \* C11: the byte range of a text field inside an encoded frame
 TField == /\ IsEvent("Field")
           /\ Matches(CpDecode(E.enc), Subst(E.text, Repertoire))          \* enc really is an encoding of the text
@@ -44,7 +45,7 @@ TMsoDec == /\ IsEvent("MsoDec")
            /\ E.re_res = "ok" /\ Len(E.re) >= 8 + Len(E.enc) /\ Len(E.re) % 4 = 0 /\ E.re[1] = Len(E.re)
            /\ SubSeq(E.re, 2, 8 + Len(E.enc)) = SubSeq(E.frame, 2, 8 + Len(E.enc))
            /\ AllNul(SubSeq(E.re, 9 + Len(E.enc), Len(E.re))) /\ Len(E.re) - (8 + Len(E.enc)) <= 4
-TNext == TMsoDec \/ TCpEnc \/ TCpDec \/ TE2E \/ TEsc \/ TUnesc \/ TStrip \/ TField \/ TFieldDec
+TNext == TMsoDec \/ TCpEnc \/ TCpDec \/ TE2E \/ TEsc \/ TUnesc \/ TStrip \/ TColour \/ TField \/ TFieldDec
 TSpec == l = 1 /\ [][TNext]_l
 Accepted ==
   LET reached == TLCGet("stats").diameter IN
